@@ -146,7 +146,7 @@ def history_shard(st, shard, nshards, payload):
             edges = G.edges_of_mask(n, mask)
             for order in range(4):
                 edits = ghist.construction(n, mask, order)
-                for variant in range(3):
+                for variant in range(5):
                     idx += 1
                     if idx % nshards != shard:
                         continue
@@ -158,14 +158,27 @@ def history_shard(st, shard, nshards, payload):
                             return [['reach', X], ['reverse'], ['subgraph', Y], ['clone']]
                         if v == 1:
                             return [[['reach', X]], [['reverse']], [['subgraph', Y]], [['clone']], [['fork']]][i % 5]
+                        if v == 3:
+                            # results the caller goes on USING: edits continue on a subgraph / a clone while
+                            # the graph it came from is held, then back on that graph while the result is held
+                            return [[['fork_sub', X]], [['reach', Y]], [['back']], [['fork']], [['back']], [['subgraph', Y]]][i % 6]
+                        if v == 4:
+                            return [[['fork_rev']], [['reach', Y]], [['back']], [['fork_sub', Y]], [['back']], [['reverse']]][(i + m) % 6]
                         return [['reverse'], ['reach', Y]] if i % 2 else [['subgraph', X], ['clone'], ['reach', X]]
-                    mode = ('every', 'every', 'at')[variant]
+                    mode = ('every', 'every', 'at', 'every', 'every')[variant]
                     inp = {'naming': ('int', 'str', 'tuple', 'opaque')[(idx // nshards) % 4],
+                           'tamper': (idx // nshards) % 3 == 0,
                            'ops': ghist.interleave(edits, q, mode, (mask + order) % (len(edits) + 1))}
+                    if variant >= 3 and not ghist.valid_ops(inp['ops']):
+                        # an edit would repeat an edge the derived graph already has: not applicable
+                        st.bump('history skipped: not applicable')
+                        continue
                     st.evaluations += 1
                     nt = len(edges) >= 2 and any(a != b for a, b in edges)
                     if nt:
                         st.nontrivial += 1
+                    if variant >= 3:
+                        st.bump('history: edits continue on a derived graph')
                     st.bump('history n=%d' % n)
                     if nt and (idx // nshards) % 211 == 0:
                         st.sample(inp, cls='history-n%d' % n)
